@@ -381,9 +381,16 @@ def family(rng, kind, thorough):
         if rng.random() < .2:
             ring = [p + [rng.choice([0, 2.5])] for p in ring]          # z on every vertex
         hs = hole_specs(rng, cx, cy) if rng.random() < .6 else []
+        pinched = n >= 5 and rng.random() < .5
+        if pinched:
+            # an outline that lists one position twice (two lobes pinched at ring[0]; the library draws such outlines itself:
+            # pie-slice wedges).  Every rotation, incl. the ones starting at either occurrence of the repeated position.
+            j = rng.randint(3, n - 2)
+            ring = ring[:j] + [list(ring[0])] + ring[j:]
+            n += 1
         base = ['poly', ring + [ring[0]], hs, d]
-        for q in rewrites(rng, ring, None if thorough else 10):
-            V.append((['poly', q, hs, d], 'same', 'outline rewritten'))
+        for q in rewrites(rng, ring, None if thorough or pinched else 10):
+            V.append((['poly', q, hs, d], 'same', 'outline rewritten' + (' (position listed twice)' if pinched else '')))
         for j, h in enumerate(hs):
             same, moved = vary_hole(rng, h)
             V.append((['poly', ring, hs[:j] + [same] + hs[j + 1:], d], 'same', 'hole outline rewritten'))
@@ -1286,6 +1293,42 @@ def history_checks(spec, styles, props, hash_first, segments, other, route_names
     return obs, fails, ok
 
 
+def use_then_update(spec, use, upd, style):
+    """[(clause, text)] - see family (e) in main"""
+    a = build(spec, style)
+    d0 = spec[-1]
+    lo, hi = (d0[1], d0[1]) if d0[0] == 'inst' else (d0[1], d0[2])
+    keep = None
+    if use == 'hash':
+        keep = hash(a)
+    elif use == 'set':
+        keep = {a}
+    elif use == 'dict':
+        keep = {a: 1}
+    else:
+        keep = multi_class(a)([a]) == multi_class(a)([build(spec, (style + 1) % 3)]) if not spec[0].startswith('m') else hash(a)
+    if upd == 'set_dt':
+        nd = ['iv', lo + 1, hi + 3]
+        a.set_dt(mk_dt(nd, style), inplace=True)
+    elif upd == 'strip_dt':
+        nd = None
+        a.strip_dt(inplace=True)
+    else:
+        nd = ['iv', lo - 1, hi + 1]
+        a.buffer_dt(timedelta(hours=1), inplace=True)
+    b = build(spec[:-1] + [nd], (style + 1) % 3)
+    del keep
+    bad = []
+    for who, x in (('the updated shape', a), ('its copy()', a.copy()), ('its pickle', pickle.loads(pickle.dumps(a)))):
+        o = observe_pair(x, b)
+        bad += [(c, f'{who} after {use} then {upd} vs a twin built with the resulting time bounds: {t}') for c, t in oracle_pair(o, 'same')]
+    if not spec[0].startswith('m'):
+        M = multi_class(a)
+        o = observe_pair(M([a]), M([b]))
+        bad += [(c, f'multi-shapes over the updated shape and over the twin: {t}') for c, t in oracle_pair(o, 'same')]
+    return bad
+
+
 def main():
     ck = Check('C15')
     ck.build_theories(['theories/Props/C15.vo', 'theories/Corr/ValueK.vo'])
@@ -1481,6 +1524,23 @@ def main():
             what, sp = rng.choice(time_variants(rng, history_spec(rng, kind)))
             t = build(sp)
             history(kind, sp, 'random calls', [random_history(rng, t, rng.randint(1, 6)), random_history(rng, t, rng.randint(1, 4))], False)
+
+    # (e) identity uses followed by an in-place update of the time bounds: a shape that was hashed / kept in a set / used as a
+    # dict key / compared inside a multi-shape, then updated in place (set_dt, strip_dt, buffer_dt), against a twin BUILT with the
+    # resulting time bounds - a remembered hash or key that an updater forgets to drop shows here
+    for kind in KINDS:
+        for rep in range(2 if not thorough else 8):
+            g = plain_spec(rng, kind)
+            g = g[:-1] + [rng.choice([['inst', 1], ['iv', 0, 2], ['iv', 1, 4]])]
+            for use in ('hash', 'set', 'dict', 'multi-eq'):
+                for upd in ('set_dt', 'strip_dt', 'buffer_dt'):
+                    m = {'k': 'use-then-update', 'a': g, 'use': use, 'update': upd}
+                    fails = guarded(lambda: use_then_update(g, use, upd, rng.randrange(3)))
+                    fails = fails[1] if fails[0] == 'Ok' else [('harness', f'the family stopped: {fails[1]}')]
+                    if fails:
+                        pure.append(dict(m, property_clauses_violated=fails[:8]))
+                    ck.count('use-then-update:' + upd)
+            nontrivial.add(json.dumps(['utu', g]))
 
     ck.cov['evaluations'] = len(cases)
     ck.cov['distinct_nontrivial'] = len(nontrivial)
